@@ -208,6 +208,14 @@ def real_stream(run):
             tiny = _pf.bornmayer(1000.0, round(rng.uniform(0.03, 0.05), 3))
             pots.append(("tiny#%d" % i, tiny, lambda r, f=tiny: f.deriv(r)))
             cut = round(rng.uniform(10.0, 14.0), 1)
+        elif i % 5 == 1:
+            # the same inside r < 1, on a fine grid: there dV/dr and r*dV/dr cross 1e-99 at DIFFERENT rows, so the value that must fit the field is the
+            # one that is written (-r dV/dr), not an intermediate one (seed C02_6)
+            from atsim.potentials import potentialforms as _pf
+            tiny = _pf.bornmayer(1000.0, round(rng.uniform(0.001, 0.002), 5))
+            pots.append(("tiny-near#%d" % i, tiny, lambda r, f=tiny: f.deriv(r)))
+            cut = round(rng.uniform(0.4, 0.6), 2)
+            nr = 4 * rng.randint(250, 320)
         ps = [Potential("A%d" % j, "B", f) for j, (desc, f, fref) in enumerate(pots)]
         s = io.StringIO()
         DLPoly_PairTabulation(ps, cut, nr).write(s)
